@@ -130,7 +130,7 @@ func init() {
 			return s
 		},
 		Run:  c17Run,
-		Rule: "(partial) 11 bodies (text, output tags of outer/data names, loop, conditional, let inside, counting marker, quotes/backslash, nested partial, nested partial with layout) x 7 data maps (none, empty, shadowing an outer name, fresh name, both, shadowing with nil, nil + fresh) x layout {none, layout, layout whose template itself uses a partial with a layout, .js layout} x content type {unset, text/html, application/javascript} x partial name extension {.html, .js, none} x position (top level, inside for, inside if, inside a helper block, inside a user function): output equals the composition at string level of the same sources rendered by plush itself as standalone templates in the equivalent scope (JS case: JSEscapeString of it), a counting marker shows every insertion happened exactly once. (content) every sequence of <=4 items from {contentFor(c1){…}, contentFor(c2){…}, contentOf(c1|c2|undefined) with/without data and with/without default block}: contentFor emits nothing where defined, each contentOf emits the stored block rendered with its data in a child of the definition scope (or its default block, or the render fails when undefined), later definitions win. (absolute) 8 nested compositions with literal expectations: outer variables, variables and data named like built-in helpers, data overriding and sibling isolation through partials nested three deep, layout of a nested partial, contentFor inside a partial, block helper inside a partial inside a loop. (blocks) block helpers using Block() / BlockWith(child) / calling Block() twice over the same bodies and placements: the string the helper received equals the inline rendering. Non-trivial: all cases with a non-text body or data.",
+		Rule: "(partial) 11 bodies (text, output tags of outer/data names, loop, conditional, let inside, counting marker, quotes/backslash, nested partial, nested partial with layout) x 7 data maps (none, empty, shadowing an outer name, fresh name, both, shadowing with nil, nil + fresh) x layout {none, layout, layout whose template itself uses a partial with a layout, .js layout} x content type {unset, text/html, application/javascript} x partial name extension {.html, .js, none} x position (top level, inside for, inside if, inside a helper block, inside a user function): output equals the composition at string level of the same sources rendered by plush itself as standalone templates in the equivalent scope (JS case: JSEscapeString of it), a counting marker shows every insertion happened exactly once. (content) every sequence of <=4 items from {contentFor(c1){…}, contentFor(c2){…}, contentOf(c1|c2|undefined) with/without data and with/without default block}: contentFor emits nothing where defined, each contentOf emits the stored block rendered with its data in a child of the definition scope (or its default block, or the render fails when undefined), later definitions win. (absolute) 11 compositions with literal expectations: empty blocks (a block helper with an empty / comment-only / silent block has a block that renders to nothing; empty contentOf default and contentFor blocks), outer variables, variables and data named like built-in helpers, data overriding and sibling isolation through partials nested three deep, layout of a nested partial, contentFor inside a partial, block helper inside a partial inside a loop. (blocks) block helpers using Block() / BlockWith(child) / calling Block() twice over the same bodies and placements: the string the helper received equals the inline rendering. Non-trivial: all cases with a non-text body or data.",
 		Bound: func(th bool) string {
 			if th {
 				return "all listed combinations; content programs of <=5 items"
@@ -308,6 +308,9 @@ func c17Absolute(t *engine.T) {
 		{"layout of a nested partial sees the nested data", `<%= partial("inner.html", {"w": "W", "v": "V", "layout": "lay1.html"}) %>`, `<l1 v="V">{w=W;v=V}</l1>`},
 		{"contentFor inside a partial is usable there", `<%= partial("cf.html") %>`, "[in]"},
 		{"block helper inside a partial inside a loop", `<%= for (e) in xs { %><%= partial("bh.html") %><% } %>`, "{a}{b}"},
+		{"an empty block is a block", `<%= hasb() { %><% } %>|<%= hasb() {} %>|<%= hasb() { } %>|<%= hasb() %>|<%= hasb() { %> <% } %>|<%= hasb() { %><%# c %><% } %>|<%= hasb() { %><% let q = 1 %><% } %>`, "has=true[]|has=true[]|has=true[]|has=false[]|has=true[ ]|has=true[]|has=true[]"},
+		{"an empty default block of contentOf renders to nothing", `A<%= contentOf("undefined") { %><% } %>B<%= contentOf("undef2", {"a": 1}) { } %>C<%= contentOf("undef3") {} %>D`, "ABCD"},
+		{"an empty contentFor block renders to nothing", `<% contentFor("e1") { %><% } %><% contentFor("e2") {} %>A<%= contentOf("e1") %>B<%= contentOf("e2") { %>default<% } %>C`, "ABC"},
 	}
 	for _, c := range cases {
 		c := c
@@ -329,6 +332,13 @@ func c17Absolute(t *engine.T) {
 			e.texts["bh.html"] = `<%= recblk() { %><%= e %><% } %>`
 			ctx := e.context()
 			ctx.Set("env", "staging") // a variable named like a built-in helper
+			ctx.Set("hasb", func(help plush.HelperContext) (string, error) {
+				if !help.HasBlock() {
+					return "has=false[]", nil
+				}
+				b, err := help.Block()
+				return "has=true[" + b + "]", err
+			})
 			out, err := Render(c.src, ctx)
 			if err != nil || out != c.want {
 				return "", engine.Failf("mismatch", "expected %q, got %q / %v", c.want, out, err)
